@@ -214,7 +214,13 @@ def need_axiom(V, key):
         V.axioms.append(z3.ForAll([a, x], f(z3.StringVal(''), z3.Concat(a, z3.Unit(x)))
                                   == z3.Concat(f(z3.StringVal(''), a), x)))
     elif key == 'split':
-        pass
+        # str contract: sep.join(s.split(sep)) == s for a non-empty separator
+        sp = V.uf('str.split', [S, S], z3.SeqSort(S))
+        jn = V.uf('str.join', [S, z3.SeqSort(S)], S)
+        s = z3.Const('s!split', S)
+        sep = z3.Const('sep!split', S)
+        V.axioms.append(z3.ForAll([s, sep], z3.Implies(z3.Length(sep) > 0, jn(sep, sp(s, sep)) == s),
+                                  patterns=[sp(s, sep)]))
     elif key.startswith('count:'):
         pass
 
